@@ -13,6 +13,9 @@ def main():
     elif p.get("replay_kind") == "pair" and "rename_back" in p:
         from checks.sys_checks import replay_pair
         still = replay_pair(p)
+    elif p.get("replay_kind") == "pair" and "left" in p and "right" in p:
+        from checks.sys_checks import replay_equiv
+        still = replay_equiv(p)
     elif "native_failure" in p and p.get("function", "").startswith("sweetpea._internal.core.cnf:CNF."):
         from checks.cnf_common import native_check
         name = p["function"].rsplit(".", 1)[1]
